@@ -141,7 +141,8 @@ def run_case(case):
         )
         return res
     obj = fit["obj"]
-    requested = ["f"] + ([fit["comp"][0]] if fit["comp"] else [])
+    comp = fit["comp"]
+    requested = ["f"] + ([c[0] for c in comp] if isinstance(comp, list) else ([comp[0]] if comp else []))
     errs = check_coherence(obj, fit["X"], fit["y"], requested)
     dropped = [f for f in requested if f not in obj.features] if case["cls"] != "MulticlassCarver" else []
     res["outcome"] = f"{case['cls']}:ok" + (":dropped" if dropped else "")
@@ -173,10 +174,10 @@ def replay(case):
 
 
 def run(tier, seed, rep):
-    cases, transitions = disc_space.enumerate_cases(tier, seed, "discretizers")
+    cases, transitions = disc_space.enumerate_cases(tier, seed, "discretizers", custom_sentinels=True)
     if tier == "quick":  # the k>=4 ordered tables of the quick column space serve C09; here they only cost time
         cases = [c for c in cases if len(c["cells"]) <= 3 or c["cls"] == "ContinuousDiscretizer"]
-    c2, t2 = disc_space.enumerate_cases(tier, seed, "carvers")
+    c2, t2 = disc_space.enumerate_cases(tier, seed, "carvers", custom_sentinels=True)
     cases += c2
     transitions += t2
     rep.rule = (
